@@ -19,7 +19,7 @@ S_NOTE = ("Trusted: symonnx operator semantics (mine; validated at every run aga
 CLAIMED = {
     "C01": dict(
         category="translation_validation", design_ref="§5 C01", engine="S",
-        text="For each program (hand-written core exhausting the interaction shapes + seeded random typed grammar) and input-shape assignment, the real eager path is executed over symbolic tensors (forking on tensor->bool/int), the protos from the real converter are interpreted symbolically, and z3 decides per eager path that outputs agree for ALL input values; both the to_model_proto and the to_function_proto leg. Structure enumerated, values decided.",
+        text="For each program (hand-written core exhausting the interaction shapes + seeded random typed grammar) and input-shape assignment, the real eager path is executed over symbolic tensors (forking on tensor->bool/int), the protos from the real converter are interpreted symbolically, and z3 decides per eager path that outputs agree for ALL input values; both the to_model_proto and the to_function_proto leg. Structure enumerated, values decided. Side verdict (structural): every operator an eager path executes must occur in the exported graph; a difference is replayed on the real eager code / onnxruntime with NaN and +-inf inputs (the only place where e.g. Not(Greater) and LessOrEqual differ).",
         note=S_NOTE, technique="translation validation: symbolic ONNX semantics + forking symbolic eager execution, z3 equivalence per path, ORT/eager replay"),
     "C02": dict(
         category="other", design_ref="§5 C02", engine="X+S",
@@ -28,7 +28,7 @@ CLAIMED = {
         technique="symbolic execution (CrossHair+z3) inductive-step lemma + structural checking of emitted protos over a generated corpus"),
     "C03": dict(
         category="translation_validation", design_ref="§5 C03", engine="S",
-        text="For each generated model (typed random DAGs with constants, initializer-inputs, shape chains, casts, If/Loop bodies with captured values and own initializers, sequences, Dropout, zero-size tensors, local functions with attribute refs) and each transformation/option tuple (optimize on proto and IR, fold_constants, default rewrite, remove_unused_nodes): symonnx interprets M and f(M) on the same symbolic inputs and z3 decides equality of all outputs for ALL input values (exact; floats additionally under a forward-error bound when the exact query is sat).",
+        text="For each generated model (typed random DAGs with constants, initializer-inputs, shape chains, casts, If/Loop bodies with captured values and own initializers, pass-through branches, sequences, Dropout, zero-size tensors, local functions with attribute refs; a third of them with a random valid topological node order; plus the rule hosts incl. control-flow, Shape<start,end>, ConvInteger/ConvTranspose/QLinearConv families) and each transformation/option tuple (optimize on proto and IR, fold_constants, default rewrite, remove_unused_nodes): symonnx interprets M and f(M) on the same symbolic inputs and z3 decides equality of all outputs for ALL input values (exact; floats additionally under a forward-error bound when the exact query is sat).",
         note=S_NOTE, technique="translation validation: symbolic ONNX semantics of M and optimize(M), z3 equivalence for all inputs, onnxruntime replay"),
     "C04": dict(
         category="translation_validation", design_ref="§5 C04", engine="S",
@@ -37,7 +37,7 @@ CLAIMED = {
     "C05": dict(
         category="translation_validation", design_ref="§5 C05", engine="S",
         text="For every rule exported by rules.common (all 53 encoded; every rule fires on some host except dropout_inference_rule, which is shown vacuous from the installed schemas at every run) and every host of the rule's families (instances and near-misses over operand ranks 0-3, [1]/[1,1] constants, inverted/eps/almost-1 constants, three constant forms incl. overridable graph inputs, attribute variants, zero-size dims): the single rule is applied with the real RewriteRuleSet; where it fires symonnx interprets host and result and z3 decides equality of all outputs for ALL input values (forward-error bound for recomputed float constants); validity for the declared opset is part of the schema-keyed interpretation.",
-        note=S_NOTE + " rules.fusion (sqrt/trig identities), ConvTranspose/ConvInteger/QLinearConv variants are outside the claim and listed in evidence.",
+        note=S_NOTE + " rules.fusion (sqrt/trig identities) is outside the claim; QLinearConv is encoded for concrete scales only; float16 rounding is not modelled (floats are reals).",
         technique="translation validation per rule and host: symbolic ONNX semantics, z3 equivalence for all inputs, onnxruntime replay"),
     "C09": dict(
         category="translation_validation", design_ref="§5 C09", engine="S",
